@@ -421,7 +421,7 @@ def c19(tier):
                           s, ("yaql", "jinja"), tok="visit"))
     run.add_jobs(jobs_for(F.curated() + F.curated_items()[:8], {"rerun": 1, "rerun_tasks": True, "rerun_multi": True, "sample": 3,
                                                                 "max_nodes": sizes(tier, 800, 4000)}, s))
-    run.add_jobs(jobs_for(F.fault_family(("undef", "type")), {"sample": 2, "max_nodes": 300}, s, ("yaql", "jinja")))
+    run.add_jobs(jobs_for(F.fault_family(("undef", "type")) + F.multi_ref_family(), {"sample": 2, "max_nodes": 300}, s, ("yaql", "jinja")))
     # determinism across interpreter hash seeds: sampled complete histories replayed in subprocesses
     seeds = (0, 1, 7) if tier == "quick" else (0, 1, 2, 3, 7, 11, 101, 4242)
     gs, errs = G.seed_groups(run.results, seeds, sizes(tier, 2, 6), random.Random(s), run.tmp)
